@@ -91,3 +91,8 @@ TABLE["C17"] = {
     "level_text": "Theorem C17_covers: for every install history and either drop order the event log is flush-clean (at each return to the user no written byte is unflushed); per-operation versions for a single install and a single restore. Correspondence: the interposed __clear_cache records range and content at call time; the model must also predict the exact sequence of flush calls.",
     "level_note": "x86-64 has coherent instruction caches, so only the call discipline is observable here; macOS path (sys_icache_invalidate in patch_function only) is not modelled.",
 }
+
+TABLE["C01"]["pipelines"].append(HIST_PIPE)
+TABLE["C01"]["fail_keys"] = ["c01.", "__nokey__"]
+TABLE["C01"]["rule"] += "; plus the install/drop histories of C02 (entries at page offsets 4093/4091 spanning two pages, 5 address regions from 0x10000 to the top of user space, near and far fakes, six installation flavours): the entry bytes are decoded and followed through the trampoline, and the target is really called"
+TABLE["C01"]["level_text"] += " Theorem C01_reach lifts this to the installed machine state for every placement (incl. page-spanning entries): from func, at most four instructions reach exactly fake, only rip/rax change, and the install does not fault."
